@@ -870,6 +870,8 @@ def data_labels(d, labels=None, depth=0):
             labels.add("d:coll>=64")
         if not isinstance(d, dict):
             labels.add("d:usermap")
+        if "-type" in d:
+            labels.add("d:-type-hint")
         for v in d.values():
             data_labels(v, labels, depth + 1)
     elif hasattr(d, "__iter__"):
